@@ -57,6 +57,7 @@ class Registry:
         self.context_handlers = {}
         install_builtins(self)
         install_arrays(self)
+        install_random(self)
 
     def register(self, name, fn=None, **flags):
         def deco(f):
@@ -69,6 +70,9 @@ class Registry:
     # ----- hooks used by the interpreter
     def module_attr(self, i, mod: Mod, attr):
         if mod.name == "xp" or mod.name.startswith("xp."):
+            key = f"{mod.name}.{attr}"
+            if key in self.handlers:
+                return Fn(self.handlers[key], key)
             key = f"xp.{attr}"
             if key in self.handlers:
                 return Fn(self.handlers[key], key)
@@ -374,6 +378,7 @@ def arr_getitem(i, a: Arr, idx, n):
     if isinstance(idx, Arr) and idx.elem == "int":
         return take(a, idx.n, idx.at, f"take({a.key},{idx.key})")
     if isinstance(idx, Arr) and idx.elem == "bool":
+        i.path.ghost["last_mask"] = idx
         cnt = red("count", idx, IS)
         sel = uf(f"masksel<{idx.key}>", IS, IS)
         return take(a, cnt, lambda k: sel(k), f"take({a.key},mask:{idx.key})")
@@ -1038,3 +1043,45 @@ def install_builtins(reg: Registry):
         return v
 
     reg.deep_copy = deep_copy
+
+
+# ------------------------------------------------------------------------------ random sources (assumed contracts)
+def install_random(reg: Registry):
+    H = reg.register
+
+    @H("rng.choice")
+    def rng_choice(i, a, k, n):
+        assumed(i, "Generator.choice(a, size, replace, p): returns `size` indices in [0, a), drawn with probabilities p")
+        gen = a[0]
+        aa = a[1]
+        size, replace, p = k.get("size", NONE), k.get("replace", B(True)), k.get("p", NONE)
+        f = uf(fresh("IDX"), IS, IS)
+        nn = to_int(size)
+        idx = Arr(nn, "int", lambda kk: f(kk), fresh("idx"))
+        i.path.event("rng.choice", gen, aa, size, replace, p, idx)
+        return idx
+
+    @H("rng.uniform")
+    def rng_uniform(i, a, k, n):
+        assumed(i, "Generator.uniform(size): `size` draws in [0, 1)")
+        gen = a[0]
+        size = k.get("size", a[1] if len(a) > 1 else NONE)
+        u = base_arr(fresh("U"), "real", to_int(size))
+        i.path.event("rng.uniform", gen, size, u)
+        return u
+
+    @H("rng.normal")
+    def rng_normal(i, a, k, n):
+        gen = a[0]
+        size = k.get("size", NONE)
+        i.path.event("rng.normal", gen, size)
+        return Sym(z3.Const(fresh("normal"), Misc), "arr_opaque")
+
+    @H("xp.random.default_rng")
+    def default_rng(i, a, k, n):
+        seeded = bool(a) or "seed" in k
+        g = Sym(z3.Const(fresh("ambient_rng"), Misc), "rng", {"ambient": not seeded})
+        i.path.event("entropy" if not seeded else "seeded-rng", "np.random.default_rng", g)
+        return g
+
+    reg.handlers["np.random.default_rng"] = default_rng
